@@ -61,7 +61,7 @@ type Options struct {
 	ExportType      T
 	NoFloatFormat   bool
 	CallDefined     bool // call every function right after its definition
-	IdentKeys     bool // map keys are plain identifiers only (printed-form round trip)
+	IdentKeys       bool // map keys are plain identifiers only (printed-form round trip)
 }
 
 // Program is a generated program.
